@@ -4,7 +4,8 @@
   semantics the compiled driver runs for the value comparison of C02, and the one `C02_sound_ops` names.
 
   Values are `RV = Option (Val × Bool)`:
-    none            outside the domain decided here (absorbing): function calls other than the cell read `_C_`, the
+    none            outside the domain decided here (absorbing): function calls other than the cell read `_C_` and the
+                    few pure library functions of `libCall` on their plain argument domain, the
                     name `pi`, tuples, number literals Python does not read as a finite double, a non-finite float, and
                     arithmetic on the TEXT "TRUE"/"FALSE" (C10's known finding text-logical-as-number: the Ops model is
                     property-driven there and differs from the code on purpose);
@@ -47,6 +48,118 @@ def opsFix (l : Val × Bool) (op : Ops.Op) (r : Val × Bool) : RV :=
       | _, _ => false
     ofOutcome (l.2 || r.2 || ap) (Ops.fixupPy l.1 op r.1)
 
+/-! ### a few pure library functions on scalar arguments, where their definition is plain
+     (excellib.py power/abs_/sign/mod/sum_, lib/stats.py max_/min_, lib/logical.py if_/and_/or_/not_,
+     lib/information.py n).  Anything outside the stated argument domain is `none` (not decided here). -/
+
+def allNums : List Val → Option (List Rat)
+  | [] => some []
+  | .num q :: r => (allNums r).map (q :: ·)
+  | _ => none
+
+def firstErr : List Val → Option Err
+  | [] => none
+  | .err e :: _ => some e
+  | _ :: r => firstErr r
+
+/-- `_numerics(*args)`: the int/float arguments (logicals, text, blanks dropped) -/
+def numerics : List Val → List Rat
+  | [] => []
+  | .num q :: r => q :: numerics r
+  | _ :: r => numerics r
+
+/-- python `sum(data)`: left to right from the int 0 -/
+def pySum (acc : Rat) : List Rat → Option Rat
+  | [] => some acc
+  | x :: r => match Ops.pyKernels.add acc x with
+    | .ok q => pySum q r
+    | _ => none
+
+/-- `_clean_logical` -/
+def cleanLogical : Val → Option (Except Err Bool)
+  | .err e => some (.error e)
+  | .str s => some (if Ops.lower s = "true".toList then .ok true else if Ops.lower s = "false".toList then .ok false
+                    else .error .value)
+  | .blank => some (.ok false)
+  | .num q => some (.ok (q ≠ 0))
+  | .bool b => some (.ok b)
+
+/-- `_clean_logicals`: first error, else the truth values of the numbers and logicals (text and blanks dropped) -/
+def truthValues : List Val → List Bool
+  | [] => []
+  | .num q :: r => (q ≠ 0) :: truthValues r
+  | .bool b :: r => b :: truthValues r
+  | _ :: r => truthValues r
+
+def libCall (f : List Char) (args : List Val) : Option (Val × Bool) :=
+  if f = "power".toList then
+    match args with
+    | [.num x, .num y] =>
+      if x = 0 ∧ y = 0 then some (.err .na, false) else
+      match Ops.pyPow x y with
+      | .ok q => some (.num q, Ops.approxResult .pow x y || bigNum (.num q) || bigNum (.num x))
+      | .zeroDiv => some (.err .div0, false)
+      | _ => none
+    | _ => none
+  else if f = "abs_".toList then
+    match args with | [.num x] => some (.num (Ops.absR x), false) | _ => none
+  else if f = "sign".toList then
+    match args with | [.num x] => some (.num (if x < 0 then -1 else if x = 0 then 0 else 1), false) | _ => none
+  else if f = "mod".toList then
+    match args with
+    | [.num x, .num y] =>
+      if y = 0 then some (.err .div0, false)
+      else if x.den = 1 ∧ y.den = 1 then some (.num ((Int.fmod x.num y.num : Int) : Rat), false) else none
+    | _ => none
+  else if f = "sum_".toList then
+    match firstErr args with
+    | some e => some (.err e, false)
+    | none => (pySum 0 (numerics args)).map fun q => (.num q, false)
+  else if f = "max_".toList ∨ f = "min_".toList then
+    match firstErr args with
+    | some e => some (.err e, false)
+    | none =>
+      match numerics args with
+      | [] => some (.num 0, false)
+      | q :: qs => some (.num (qs.foldl (fun a b => if f = "max_".toList then (if a < b then b else a)
+                                                   else (if b < a then b else a)) q), false)
+  else if f = "if_".toList then
+    match args with
+    | [t, a] | [t, a, _] =>
+      (cleanLogical t).map fun c => match c with
+        | .error e => (.err e, false)
+        | .ok true => (a, false)
+        | .ok false => ((match args with | [_, _, b] => b | _ => .num 0), false)
+    | _ => none
+  else if f = "and_".toList ∨ f = "or_".toList then
+    if args.isEmpty then none else
+    match firstErr args with
+    | some e => some (.err e, false)
+    | none =>
+      match truthValues args with
+      | [] => some (.err .value, false)
+      | bs => some (.bool (if f = "and_".toList then bs.all id else bs.any id), false)
+  else if f = "not_".toList then
+    match args with
+    | [t] => (cleanLogical t).map fun c => match c with
+        | .error e => (.err e, false)
+        | .ok b => (.bool (!b), false)
+    | _ => none
+  else if f = "n".toList then
+    match args with
+    | [.err e] => some (.err e, false)
+    | [.str _] => some (.num 0, false)
+    | [.bool b] => some (.num (if b then 1 else 0), false)
+    | [v] => some (v, false)
+    | _ => none
+  else none
+
+/-- all arguments decided → the plain values and whether any is approximate -/
+def argVals : List RV → Option (List Val × Bool)
+  | [] => some ([], false)
+  | none :: _ => none
+  | some (v, a) :: r => (argVals r).map fun (vs, b) => (v :: vs, a || b)
+
 /-- the semantics of the compiled lambda over an environment of cell values -/
 def opsSem (env : List (List Char × Val)) : Sem RV where
   num t := (Ops.parseNum? t).map fun q => (.num q, bigNum (.num q))
@@ -61,7 +174,7 @@ def opsSem (env : List (List Char × Val)) : Sem RV where
       match args with
       | [some (.str a, _)] => some ((env.lookup a).getD .blank, false)
       | _ => none
-    else none
+    else (argVals args).bind fun (vs, approx) => (libCall f vs).map fun (v, a) => (v, a || approx)
   tuple _ := none
 
 /-- `eval_func`: `ret_val if ret_val not in (None, EMPTY) else 0` -/
